@@ -136,7 +136,46 @@ def engine_keeps_every_ruleset(ctx):
               "although the configuration was accepted" % ([(k, p) for k, p in (bad[0][1] if bad else [])][:3]))
 
 
+REORDERING = re.compile(r"^std::(ranges::)?(sort|stable_sort|partial_sort|nth_element|reverse|rotate|shuffle|random_shuffle|partition|stable_partition|"
+                        r"next_permutation|prev_permutation|swap_ranges|iter_swap|make_heap|push_heap|pop_heap|sort_heap|unique|inplace_merge|reverse_copy|"
+                        r"rotate_copy|partial_sort_copy)$")
+
+
+def compiled_order_is_configuration_order(ctx):
+    """Rulesets, detector groups, detectors and actions reach the engine in the order the configuration lists them: the compile functions
+    (Config2::compile / compileDropIn and everything of the config layer they reach) append one compiled element per configured element
+    and never call a reordering algorithm, nor insert anywhere but at the back.  (A sort by some new key - even one documented as
+    'equal keys keep their order' - reorders: std::sort is not stable.)"""
+    P, cg = ctx.prog, ctx.cg
+    roots = [f.usr for q in ("Oomd::Config2::compile", "Oomd::Config2::compileDropIn", "Oomd::Config2::JsonConfigParser::parse") for f in P.fn(q)]
+    ctx.counters["compile_roots"] = len(roots)
+    ctx.floor("compile_roots", 3, "Config2::compile, compileDropIn and JsonConfigParser::parse")
+    scope_ = [P.fns[u] for u in cg.reach(roots) if P.fns[u].file.startswith("oomd/config/")]
+    ctx.counters["compile_scope_functions"] = len(scope_)
+    ctx.floor("compile_scope_functions", 5, "functions of the config layer reachable from compile / compileDropIn")
+    n_app = 0
+    for f in sorted(scope_, key=lambda x: (x.file, x.line)):
+        ctx.use(f)
+        for i in f.calls():
+            c = plain(f.nodes[i].get("callee") or "")
+            if REORDERING.match(c):
+                ctx.violation("compiled-order-is-configuration-order:%s@%d" % (short(f), f.nodes[i].get("line", 0)), "who-may-call (reordering algorithms in the compile scope)", f.loc(i),
+                              "%s calls %s on what it compiles: the engine evaluates rulesets (and a ruleset its detector groups and actions) in the order it is handed "
+                              "them, so the configured order is no longer the evaluation order (std::sort does not even keep equal keys in place beyond 16 elements)" % (f.pq, c))
+            if f.nodes[i].get("cname") in ("push_front", "emplace_front") or (f.nodes[i].get("cname") in ("insert", "emplace") and f.nodes[i].get("args") and
+                                                                                re.search(r"\.c?begin\(\)", f.text(f.nodes[i]["args"][0])) and "vector" in (f.nodes[i].get("callee") or "")):
+                ctx.violation("compiled-order-is-configuration-order:%s@%d" % (short(f), f.nodes[i].get("line", 0)), "who-may-call (reordering algorithms in the compile scope)", f.loc(i),
+                              "%s inserts a compiled element at the front (%s): the configured order is reversed on the way to the engine" % (f.pq, f.text(i)[:60]))
+            if f.nodes[i].get("cname") in ("emplace_back", "push_back"):
+                n_app += 1
+    ctx.counters["compile_scope_appends"] = n_app
+    ctx.floor("compile_scope_appends", 4, "append sites in the compile scope (rulesets, detector groups, detectors, actions)")
+    ctx.ok("compiled-order-is-configuration-order", "who-may-call (reordering algorithms in the compile scope)", "-",
+           "%d functions of the config layer reachable from compile / compileDropIn: no reordering algorithm, no front insertion; %d append sites" % (len(scope_), n_app))
+
+
 def run(ctx):
+    compiled_order_is_configuration_order(ctx)
     engine_keeps_every_ruleset(ctx)
     from .C11 import instances_kept_only_if_ran
     instances_kept_only_if_ran(ctx)
